@@ -326,6 +326,11 @@ def str_method(ex, o, m, args, kwargs, st, fr, n):
                     st.assume(ax)
             return ex.val(VStr(sf.apply(*terms), o.kind), st)
         raise Unsupported('str.%s needs a spec function' % m)
+    if m == 'rstrip' and args and const_str(args[0].t) == '/' and 'rstrip_slash' in ex.reg.specfuns:
+        sf = ex.reg.specfuns['rstrip_slash']
+        for ax in sf.unfold(o.t):
+            st.assume(ax)
+        return ex.val(VStr(sf.apply(o.t), o.kind), st)
     if m == 'split':
         return str_split(ex, o, args, kwargs, st)
     if m == 'join':
